@@ -66,7 +66,7 @@ func main() {
 		workerMain(os.Args[2])
 		return
 	}
-	r := ev.Start("C04", "model_checking", 75*time.Second, 16*time.Minute)
+	r := ev.Start("C04", "model_checking", 60*time.Second, 16*time.Minute)
 	ir.InitWriterGlobals()
 	r.Rule = "part a: every label set of size <= 3 over 3 names x 9 (thorough 17) values incl. quote, backslash, \\x07, \\x00, multi-byte, invalid UTF-8, >100 bytes, " +
 		"every permutation, alone and as second stream of another request, through every protocol/layout that can say it (distinct = distinct stored label set); " +
@@ -114,8 +114,10 @@ func main() {
 						}
 					}
 				} else {
-					jobs = append(jobs, job{bConfig{TZ: tz, Cluster: cl, Retry: rt, Budget: depth, MaxEntries: 1}})
 					jobs = append(jobs, job{bConfig{TZ: tz, Cluster: cl, Retry: rt, Budget: shapeBudget, MaxEntries: shapeEntries}})
+					if rt == 1 { // quick: the deeper single-entry exploration with the default-like retry setting only
+						jobs = append(jobs, job{bConfig{TZ: tz, Cluster: cl, Retry: rt, Budget: depth, MaxEntries: 1}})
+					}
 				}
 			}
 		}
@@ -127,7 +129,13 @@ func main() {
 	ctx, cancel := context.WithDeadline(context.Background(), r.Deadline.Add(60*time.Second))
 	defer cancel()
 	workerDeadline := r.Deadline.Add(-8 * time.Second)
-	sem := make(chan struct{}, 12)
+	// quick: all 32 workers run side by side (on a loaded machine every configuration then gets its share and the
+	// breadth-first order means the shallow levels are complete everywhere when the deadline cuts); thorough: 14 at a time
+	par := 14
+	if !r.Thorough() {
+		par = 24
+	}
+	sem := make(chan struct{}, par)
 	runAll := func(js []job) ([]*bResult, []error) {
 		results := make([]*bResult, len(js))
 		errs := make([]error, len(js))
